@@ -50,6 +50,14 @@ ASSUMPTIONS = ["scipy.linalg.expm / numpy.linalg eigh, eig, solve, svd on matric
                "lin_solver(f, c b, c v0) with c lin_solver(f, b, v0).  Two runs differ by the rounding of c v0: an incomplete Krylov space "
                "that passed a small sub-diagonal h may differ by 100 eps ||A||^2/h, non-normal eigenvalues are compared to 1e-5 only "
                "(conjugate pairs of real maps tie); a complete space must agree to 1e-10",
+               "edge families (2 of 12 case slots, 14 scenarios in rotation): a call with an optional argument omitted must be bitwise "
+               "equal to the same call with the documented signature default spelled out (expmv t=1., tol=1e-12, ncv=10, hermitian=False, "
+               "normalize=False, return_info=False; eigs k=1, which='SR', ncv=10, hermitian=False; lin_solver ncv=10, tol=1e-13, "
+               "pinv_tol=1e-13, hermitian=False; the API has no sigma / preconditioner arguments); eigs tol / maxiter are documented as not "
+               "implemented and must not matter; expmv(tol=0) has no documented meaning and is not called; lin_solver(tol=0) is called only "
+               "when the Krylov space is not exhausted within ncv; start vectors given lazily transposed, hard/meta fused (with the map "
+               "wrapped accordingly), with explicitly stored zero blocks, or real for a complex map are decided by the same dense oracle; "
+               "7 % of all cases live in a one-dimensional sector",
                "the default of `which` is part of the documented signature (autofunction yastn.eigs: which='SR'; dmrg_ relies on it): eigs "
                "called without `which` must return what which='SR' returns, checked on positive-dominant spectra (map shifted by 1.5||A||)",
                "'exact result representable' is read as: spectral growth of exp(tA) and the numerical abscissa of tA (bound for every "
